@@ -431,6 +431,25 @@ class Prop(fw.PropBase):
                     {'mode': 'tiled', 'bp_per_segment': B, 'fragment_size': L, 'bp_per_job': rng.choice([B, 3 * B]),
                      'use_pool': rng.random() < 0.5, 'n_threads': 2}]
             cases.append({'stream': 'main', 'lib': lib, 'runs': runs, 'B': B})
+        # contig-per-process: small (< 100 kb) and large (>= 100 kb header length) contigs mixed in every order; the job
+        # list code groups small contigs and gives each large contig its own job, so the order matters (seed C08-3).
+        # Reads of a large contig sit near its start; every contig holds reads.
+        layouts = ['ssL', 'Ls', 'sLs', 'sL', 'Lss', 'LsL', 'ssLs', 'sLL']
+        for k in range(len(layouts) if quick else 4 * len(layouts)):
+            lay = layouts[k % len(layouts)]
+            B = rng.choice([500, 1000])
+            L = rng.choice([100, 200])
+            place = [['chr%d' % (i + 1), B * rng.randint(2, 4)] for i in range(len(lay))]
+            for _ in range(20):
+                lib = gen_library(rng, B, L, place, rng.randint(10, 20), rng.choice([0, 2, 3]))
+                used = set(f['contig'] for f in lib['frags'] if f['contig'])
+                if len(used) == len(lay):
+                    break
+            lib['contigs'] = [[c, (l if ch == 's' else 100000 + rng.randint(0, 5000))] for (c, l), ch in zip(place, lay)]
+            runs = [{'mode': 'cpp', 'n_threads': rng.randint(1, 4)},
+                    {'mode': 'tiled', 'bp_per_segment': 50000, 'fragment_size': L, 'bp_per_job': rng.choice([50000, 10 ** 6]),
+                     'use_pool': False, 'n_threads': 1}]
+            cases.append({'stream': 'main', 'lib': lib, 'runs': runs, 'B': 50000, 'layout': lay})
         # fragments longer than the margin (outside the property: reported, enforced only where the precondition of
         # C08_equiv holds) and the contig layouts that used to hit defect D8 of the contig-per-process job list
         for k in range(4 if quick else 20):
